@@ -222,6 +222,34 @@ Theorem checkpoint_iff_interrupt_run : forall (F : list gspec) with_id mods x e 
     (co_written co = true <-> (with_id = true /\ exists i c, co_out co = OInterrupted i c)).
 Proof. exact run_drive_written_iff. Qed.
 
+(* ---- the nested-graph information ----
+   [paired F g i c] (Proofs/InterruptDrive.v): the information [i] and the checkpoint [c] of an interrupt of
+   graph [g] belong together: [i] reports every interrupt-before node of [g] pending in [c]; nested
+   informations and nested checkpoints are listed under the same keys, every key is a graph node of [g], and
+   the pair found under it belongs together in the same sense for the nested graph — at every depth.
+   Every interrupt of every call of the run of a case satisfies it (whatever the modes of the graphs, the
+   schedules of the eager ones, the lists handed to Compile), and so does what every graph node returns
+   to its parent when its graph is interrupted inside. *)
+Theorem nested_info_faithful :
+  forall (F : list gspec) g0 with_id mods x e cos e' co i c,
+    nth_error F 0 = Some g0 ->
+    run_drive F with_id mods x e = (cos, e') ->
+    In co cos -> co_out co = OInterrupted i c -> paired F g0 i c.
+Proof. exact run_drive_paired. Qed.
+
+Theorem nested_info_faithful_node :
+  forall d F g k cpo v e cp info e',
+    node_exec d F g k cpo v e = (TSub cp info, e') ->
+    exists n j sub, find_node (gs_graph g) k = Some n /\ n_kind n = KSub j /\ nth_error F j = Some sub /\
+                    paired F sub (un_info info) (un_cp cp).
+Proof. exact node_exec_sub_ok. Qed.
+
+Example nested_info_faithful_witness : exists co rest e i c si sc,
+  run_drive [wd_top; wd_sub] true [] wd_x (env0 []) = (co :: rest, e) /\
+  co_out co = OInterrupted i c /\ ii_subs i = [(2, NInfo si)] /\ cp_subs c = [(2, NCP sc)] /\
+  ii_before si = [5] /\ map fst (cp_inputs sc) = [5].
+Proof. exact wd_nested_run. Qed.
+
 (* non-vacuity of the run-level statement: two calls, the interrupt-before node runs in the second, the
    first reported it and wrote its checkpoint; the configured list names the node twice and a node
    that does not exist *)
@@ -284,3 +312,6 @@ Print Assumptions before_needs_reported_interrupt_run.
 Print Assumptions checkpoint_iff_interrupt_run.
 Print Assumptions before_needs_reported_interrupt_run_witness.
 Print Assumptions after_stops_successors_eager_segment_witness.
+Print Assumptions nested_info_faithful.
+Print Assumptions nested_info_faithful_node.
+Print Assumptions nested_info_faithful_witness.
